@@ -1,10 +1,13 @@
 package checks
 
 import (
+	"bytes"
 	"fmt"
 	"os"
+	"os/exec"
 	"path/filepath"
 	"strings"
+	"time"
 
 	"evylang.dev/evy/pkg/parser"
 
@@ -257,6 +260,9 @@ func c08Run(c *core.Ctx, i int) {
 			}
 		}
 	}
+	if c.EvyBin != "" && i%8 == 5 {
+		c08CLIEdges(c, i)
+	}
 	if i < 10 && i%10 == 2 {
 		c.Sample(map[string]any{"kind": kind, "source": firstN(src, 400), "observation": firstN(first, 300)})
 	}
@@ -274,4 +280,92 @@ func c08Section(a, b string) string {
 		return "formatted-text"
 	}
 	return "run"
+}
+
+// c08CLIEdges: process-level observables outside the happy path. (a) `--svg-out` to a place that cannot
+// be written (missing directory, an existing directory, a read-only directory): exit status, stdout and
+// stderr of repeated runs are identical - no temporary name, address or time leaks into the message.
+// (b) `cls` on the real CLI platform runs an external `clear`; with a stand-in `clear` that is slow to
+// start, the text printed before and after every cls must still come out in program order.
+func c08CLIEdges(c *core.Ctx, i int) {
+	dir := filepath.Join(c.Tmp, fmt.Sprintf("c08edge%d", i))
+	_ = os.RemoveAll(dir)
+	if err := os.MkdirAll(filepath.Join(dir, "isdir"), 0o755); err != nil {
+		c.Inconclusive("mkdir: " + err.Error())
+		return
+	}
+	defer os.RemoveAll(dir)
+	prog := filepath.Join(dir, "p.evy")
+	_ = os.WriteFile(prog, []byte("print \"start\"\nmove 10 10\ncircle 5\nprint \"end\"\n"), 0o644)
+	run := func(env []string, args ...string) (string, bool) {
+		cmd := exec.Command(c.EvyBin, args...)
+		cmd.Dir = dir
+		cmd.Env = append(append(os.Environ(), "EVY_SKIP_SLEEP=1"), env...)
+		cmd.Stdin = strings.NewReader("")
+		var ob, eb bytes.Buffer
+		cmd.Stdout, cmd.Stderr = &ob, &eb
+		done := make(chan error, 1)
+		if err := cmd.Start(); err != nil {
+			c.Inconclusive("start evy: " + err.Error())
+			return "", false
+		}
+		go func() { done <- cmd.Wait() }()
+		select {
+		case <-done:
+		case <-time.After(60 * time.Second):
+			_ = cmd.Process.Kill()
+			<-done
+			c.Inconclusive("evy did not exit within 60 s")
+			return "", false
+		}
+		c.Event("process_runs", 1)
+		return fmt.Sprintf("exit %d\nSTDOUT\n%s\nSTDERR\n%s", cmd.ProcessState.ExitCode(), ob.String(), eb.String()), true
+	}
+	targets := []string{filepath.Join("missing", "out.svg"), "isdir", filepath.Join("isdir", "sub", "deep", "out.svg"), filepath.Join(dir, "missing2", "abs.svg")}
+	t := targets[(i/8)%len(targets)]
+	c.Cover("cli-edge", "svg-out-unwritable:"+strings.SplitN(filepath.ToSlash(t), "/", 2)[0])
+	var first string
+	for k := 0; k < 3; k++ {
+		got, ok := run(nil, "run", "--svg-out", t, prog)
+		if !ok {
+			return
+		}
+		if strings.Contains(got, "goroutine ") {
+			break
+		}
+		if k == 0 {
+			first = got
+			if !strings.HasPrefix(got, "exit 1\n") && !strings.HasPrefix(got, "exit 0\n") {
+				c.Violation("cli-edge:svg-out-status", "evy run --svg-out "+t+": unexpected status: "+firstN(got, 300), t, nil)
+				return
+			}
+		} else if got != first {
+			c.Violation("nondeterministic-process:svg-out-unwritable", "two evy run processes with the same unwritable --svg-out target differ: "+firstDiff(first, got), "--svg-out "+t, nil)
+			return
+		}
+	}
+	// (b) cls through an external program
+	bin := filepath.Join(dir, "bin")
+	_ = os.MkdirAll(bin, 0o755)
+	if err := os.WriteFile(filepath.Join(bin, "clear"), []byte("#!/bin/sh\nsleep 0.03\nprintf '<cls>'\n"), 0o755); err != nil {
+		c.Inconclusive("write clear: " + err.Error())
+		return
+	}
+	n := 2 + (i/8)%3
+	var src, want strings.Builder
+	for k := 0; k < n; k++ {
+		fmt.Fprintf(&src, "print \"before %d\"\ncls\nprint \"after %d\"\n", k, k)
+		fmt.Fprintf(&want, "before %d\n<cls>after %d\n", k, k)
+	}
+	clsProg := filepath.Join(dir, "cls.evy")
+	_ = os.WriteFile(clsProg, []byte(src.String()), 0o644)
+	c.Cover("cli-edge", "cls-external-program")
+	got, ok := run([]string{"PATH=" + bin + string(os.PathListSeparator) + os.Getenv("PATH")}, "run", clsProg)
+	if !ok {
+		return
+	}
+	wantAll := "exit 0\nSTDOUT\n" + want.String() + "\nSTDERR\n"
+	if got != wantAll {
+		c.Violation("cli-edge:cls-order", "output around cls does not come out in program order: "+firstDiff(wantAll, got), src.String(), nil)
+	}
 }
